@@ -9,7 +9,7 @@ from types import MethodType
 import numpy as np
 
 from .helper import create_build_finer_grid_fun
-from ..markovchain.markovchain import MarkovChainProcess
+from ..markovchain.markovchain import MarkovChainProcess, MCSimulationWithJumpTimes
 from ...distribution.sampling import SamplingMethod
 from ...distribution.univariate.uniform import Uniform
 from ...grid.spatial import CTMCGrid
@@ -310,19 +310,16 @@ class CouplingSimulationWithJumpTimes(CouplingSimulation):
         fine_states_all_values = fine_mc.values
         jump_times = fine_mc.times
 
-        coarse_states_all_values = np.empty_like(fine_states_all_values)
+        # one (possibly empty) array of coupled states per date interval
+        coarse_states_all_values = [
+            self.coupling_states_for_a_slice(slice_fine_states)
+            for slice_fine_states in fine_states_increments
+        ]
 
-        for k, (slice_fine_states, slice_fine_values) in enumerate(
-            zip(fine_states_increments, fine_states_all_values)
-        ):
-            if slice_fine_states:
-                slice_coarse_values = self.coupling_states_for_a_slice(
-                    slice_fine_states
-                )
-                coarse_states_all_values[k] = slice_coarse_values
-
-        fine_values = np.concatenate(fine_states_all_values).ravel().astype(float)
-        coarse_values = np.concatenate(coarse_states_all_values).ravel().astype(float)
+        # both chains restart from the origin in every date interval: running sum over the dates
+        running_sum = MCSimulationWithJumpTimes.running_sum_over_the_dates
+        fine_values = running_sum(fine_states_all_values)
+        coarse_values = running_sum(coarse_states_all_values)
 
         return jump_times, fine_values, coarse_values
 
